@@ -538,7 +538,7 @@ class Translator:
             'Require Import LT.FieldSec LT.PolyQ LT.ExpPoly LT.LaplaceSig LT.LaplaceModel.',
             'Local Open Scope F_scope.', 'Section Gen.', 'Variable K : fld.', 'Variable V : lenv K.',
             'Notation ex := (l_ex K V).', 'Notation sn := (l_sn K V).', 'Notation cs := (l_cs K V).',
-            'Notation fabs := (l_fabs K V).', 'Notation pi_ := (l_pi K V).', 'Notation neg := (l_neg K V).',
+            'Notation fabs := (l_fabs K V).', 'Notation pi_ := (l_pi K V).', 'Notation isr := (l_isr K V).', 'Notation neg := (l_neg K V).',
             'Notation Fn := (l_Fn K V).', 'Notation Ic := (l_Ic K V).', '']
         for nm in self.ORDER:
             sig, body = self.defs[nm]
